@@ -319,6 +319,32 @@ def cases(tier, seed):
                 yield {"scorer": name, "x": x, "rep": list(rep)}
 
 
+    # LARGE integer values (4e9: exact in float64, but their squares and running sums of squares exceed the int64 range):
+    # the same numbers held in int64 and in float64 must still give the same output
+    big = (0, 4_000_000_000)
+    wide = [r for r in REPS_SCORER if r[1] in ("int64", "float64")]
+    for name in scorer_menu():
+        for xs in itertools.product(big, repeat=5):
+            for rep in wide:
+                yield {"scorer": name, "x": list(xs), "rep": list(rep)}
+    # the same for 32-bit element types: 50 000 is exact in int32 / float32, its square is beyond int32
+    big32 = (0, 50_000)
+    narrow32 = [(c, dt, "range", "default") for c in ("nd2", "df", "nd1") for dt in ("int32", "float32", "int64")]
+    for name in scorer_menu():
+        for xs in itertools.product(big32, repeat=5):
+            for rep in narrow32:
+                yield {"scorer": name, "x": list(xs), "rep": list(rep)}
+    for name in ("PELT", "CAPA"):
+        for xs in itertools.product(big32, repeat=6):
+            for rep in narrow32[:4]:
+                yield {"det": name, "x": list(xs), "rep": list(rep)}
+    for name in ("PELT", "MovingWindow", "SeededBinarySegmentation", "CAPA", "CircularBinarySegmentation"):
+        for xs in itertools.product(big, repeat=6):
+            for rep in (("nd2", "int64", "range", "default"), ("df", "int64", "range", "default"), ("series", "int64", "datetime", "str"),
+                        ("nd1", "int64", "range", "default"), ("df", "float64", "offset", "str")):
+                yield {"det": name, "x": list(xs), "rep": list(rep)}
+
+
 NSH = 96
 
 
@@ -329,7 +355,7 @@ def shards(tier, seed):
 def bounds(tier, seed):
     return {"detectors": list(dets.DETECTORS), "scorers": list(scorer_menu()),
             "representations_p1": len(REPS_P1), "representations_p1_reduced": len(REPS_P1_SMALL), "representations_p2": len(REPS_P2),
-            "data": "all (0,3) series n=6 (full grid), n=7 (reduced grid; thorough also n=8); 2-column (0,3) n=4 (thorough also 5); scorers on all (0,1,3) series n=5 (6)",
+            "data": "all (0,3) series n=6 (full grid), n=7 (reduced grid; thorough also n=8); 2-column (0,3) n=4 (thorough also 5); scorers on all (0,1,3) series n=5 (6); all (0, 4e9) series n=5 (scorers) / n=6 (five detectors) in the int64 and float64 representations; all (0, 50000) series n=5 / 6 as int32 / float32 / int64",
             "pipelines": ["fit(R).predict/transform/transform_scores(R)", "fit(canonical).predict(R)", "fit(R[:n-2]).update(R[n-2:]).predict(R)"]}
 
 
